@@ -12,7 +12,7 @@ import (
 
 func init() {
 	register("C13", "Decides structural necessary conditions of 'submission retries follow the server's pacing and stop when they should': "+
-		"(R1) the status decision table of the retry loop: 200 ⇒ the loop returns the response and body of that attempt with a nil error; 408 ⇒ another attempt without touching the back-off; 429 and 503 ⇒ back-off then another attempt; every other status (each constant the code compares with, and the default) ⇒ immediate RspError{StatusCode, Body, Err}; "+
+		"(R1) every iteration of the retry loop makes exactly one HTTP POST attempt — a call of PostAndParse, or the request itself when the transport is written out in the loop (then the clauses of R5 are decided on the loop and an unparsable 200 body must take the back-off-and-retry path there) —; the status decision table of the retry loop: 200 ⇒ the loop returns the response and body of that attempt with a nil error; 408 ⇒ another attempt without touching the back-off; 429 and 503 ⇒ back-off then another attempt; every other status (each constant the code compares with, and the default) ⇒ immediate RspError{StatusCode, Body, Err}; "+
 		"(R2) the error edge: context.Canceled / DeadlineExceeded ⇒ immediate return of that error, any other error ⇒ backoff.set(nil) and another attempt; on 429/503 the override handed to backoff.set is nil without Retry-After, seconds×time.Second for an integer, time.Until(date) for an RFC 1123 date, nil when neither parses; every way round the loop passes waitForBackoff(ctx) and its error ends the loop and is returned; "+
 		"(R3) backoff.set: with an override the new not-before instant is now+override unless the existing one is already later (never shortened), without one it is now + 1s·2^(multiplier−1) with the multiplier incremented only below 8 (128 s cap) and read after the increment, and an instant still in the future is left alone; only set/decreaseMultiplier write the shared state and every client gets a fresh zero backoff; "+
 		"(R4) waitForBackoff sleeps time.Until(until() + jitter) with jitter = rand.Intn(maxJitter in ms) milliseconds ≥ 0 (negative ⇒ 0) in a blocking select that also listens on ctx.Done() and returns ctx.Err() from it; maxJitter = 250 ms; "+
@@ -69,6 +69,7 @@ type c13WaitSite struct {
 	marks  []ssa.Instruction     // "a wait happens here" in the loop: the calls, or the select
 	errIdx int                   // index of fn's error result
 	tuple  bool
+	att    *c13Att // the attempt of the loop (nil: a call of PostAndParse)
 }
 
 func (w *c13WaitSite) inline() bool { return w.fn == w.loop }
@@ -182,23 +183,31 @@ func c13RetKinds(r *Run, w *c13WaitSite, ret *ssa.Return, reach *Reach) []c13Kin
 	}
 	under := func(x ssa.Value) string {
 		if reach != nil {
-			return r.D.DUnder(x, reach)
+			// a φ whose incoming edges all lie before the start of the walk is not restricted by it
+			if s := r.D.DUnder(x, reach); !strings.Contains(s, "⊥") {
+				return s
+			}
 		}
 		return r.D.D(x)
 	}
 	d0, d1 := under(v[0]), under(v[1])
+	att := w.attempt()
+	if att.errVals[v[2]] && d0 == "nil" && d1 == "nil" {
+		// the very value the loop compared with the context sentinels
+		return []c13Kind{{"attempt-error", v[2]}}
+	}
 	var out []c13Kind
 	for _, e := range PhiLeaves(v[2], reach) {
 		de := r.D.D(e)
 		k := "other(" + de + ")"
 		switch {
-		case glob(c13Post+"(*)#0", d0) && glob(c13Post+"(*)#1", d1) && errKind(e) == "nil":
+		case glob(att.rsp, d0) && anyGlob(att.body, d1) && errKind(e) == "nil":
 			k = "success"
 		case d0 != "nil" || d1 != "nil":
 			k = "other(" + d0 + ", " + d1 + ", " + de + ")"
 		case w.isWaitErr(r, e):
 			k = "wait-error"
-		case glob(c13Post+"(*)#2", de):
+		case att.err != "" && glob(att.err, de):
 			k = "attempt-error"
 		case errKind(e) == "non":
 			if a := baseAlloc(e); a != nil && glob("new:jsonclient.RspError#*", r.D.allocName(a)) {
@@ -216,7 +225,12 @@ func c13RetKinds(r *Run, w *c13WaitSite, ret *ssa.Return, reach *Reach) []c13Kin
 }
 
 func c13Observe(r *Run, w *c13WaitSite, fn *ssa.Function, header *ssa.BasicBlock, reach *Reach, sets, waits []ssa.Instruction) c13Outcome {
-	o := c13Outcome{sets: reachableIns(sets, reach), waits: reachableIns(waits, reach), loops: ReachedAgain(reach, header)}
+	return c13ObserveL(r, w, fn, reach, sets, waits, ReachedAgain(reach, header))
+}
+
+// c13ObserveL: loops says whether the walk goes on to the next iteration.
+func c13ObserveL(r *Run, w *c13WaitSite, fn *ssa.Function, reach *Reach, sets, waits []ssa.Instruction, loops bool) c13Outcome {
+	o := c13Outcome{sets: reachableIns(sets, reach), waits: reachableIns(waits, reach), loops: loops}
 	seen := map[string]bool{}
 	for _, ret := range reachableReturns(fn, reach) {
 		for _, k := range c13RetKinds(r, w, ret, reach) {
@@ -252,10 +266,29 @@ func c13OnlyKinds(o c13Outcome, allowed ...string) bool {
 	return true
 }
 
+// c13Loop: R1 / R2 on the retry loop.  An iteration makes exactly one HTTP POST attempt, whatever
+// carries it: a call of PostAndParse (decided below, with R5 on PostAndParse), or the request
+// itself when the transport is written out in the loop (c13LoopInline, which also decides the
+// clauses of R5 on the loop).
 func c13Loop(r *Run, fn *ssa.Function) {
 	r.Rule("C13.R1")
-	post := r.OneCall(fn, "retry:attempt", c13Post)
-	if post == nil {
+	atts := c13Attempts(fn)
+	var names []string
+	for _, a := range atts {
+		names = append(names, CalleeOf(a)+" at "+r.Where(a))
+	}
+	if !r.Check("retry:attempt", len(atts) == 1, r.FnPos(fn), fmt.Sprintf("expected exactly one HTTP POST attempt per iteration in %s (one instruction that sends a request: a call of %s, or the request itself), found %d %v", FuncName(fn), c13Post, len(atts), names)) {
+		return
+	}
+	post := atts[0]
+	switch {
+	case CalleeOf(post) == c13Post && post.Parent() == fn:
+		// decided below
+	case c13Transport(post) && post.Parent() == fn:
+		c13LoopInline(r, fn, post)
+		return
+	default:
+		r.Fail("retry:attempt", r.Where(post), "undecided: the attempt of the retry loop is made through "+CalleeOf(post)+", which is neither "+c13Post+" nor the request itself")
 		return
 	}
 	// header: the block of the attempt, where the walks of one iteration start.  They describe an
@@ -402,7 +435,7 @@ func c13Loop(r *Run, fn *ssa.Function) {
 		})
 
 	// R2b: the override on 429 / 503
-	c13Overrides(r, fn, header, byCode, errNil, sets)
+	c13Overrides(r, fn, header, byCode, errNil, sets, c13Post+"(*)#0", nil)
 	for _, sc := range sets {
 		r.ExpectArg(sc.(ssa.CallInstruction), "retry:set.receiver", 0, "p0.backoff")
 	}
@@ -438,7 +471,10 @@ func c13Loop(r *Run, fn *ssa.Function) {
 // neither parses.  The header is examined either in the loop itself or by a helper that is a pure
 // function of the response and whose result is what the loop hands to backoff.set; in the second
 // form the table is decided inside the helper and its terms are carried to the call site.
-func c13Overrides(r *Run, fn *ssa.Function, header *ssa.BasicBlock, byCode map[int64]*ConstCase, errNil Sigma, sets []ssa.Instruction) {
+//
+// rsp is the glob of the response of the attempt; stop (written-out transport) keeps the walks,
+// which then start at the status dispatch, inside one iteration.
+func c13Overrides(r *Run, fn *ssa.Function, header *ssa.BasicBlock, byCode map[int64]*ConstCase, errNil Sigma, sets []ssa.Instruction, rsp string, stop map[*ssa.BasicBlock]bool) {
 	ra := ordAtomR(`(http.Header).Get(*"Retry-After")`, `""`)
 	atoi := nilAtom("strconv.Atoi(*)#1")
 	parse := nilAtom("time.Parse(*)#1")
@@ -497,7 +533,7 @@ func c13Overrides(r *Run, fn *ssa.Function, header *ssa.BasicBlock, byCode map[i
 					continue
 				}
 				s := merge(base, s2)
-				reach := r.D.Walk(fn, s, header, nil)
+				reach := r.D.Walk(fn, s, header, stop)
 				r.Valuations++
 				rs := reachableIns(sets, reach)
 				if len(rs) == 0 {
@@ -511,7 +547,7 @@ func c13Overrides(r *Run, fn *ssa.Function, header *ssa.BasicBlock, byCode map[i
 			}
 			continue
 		}
-		reach := r.D.Walk(fn, base, header, nil)
+		reach := r.D.Walk(fn, base, header, stop)
 		r.Valuations++
 		rs := reachableIns(sets, reach)
 		failAll := func(where, why string) {
@@ -541,9 +577,36 @@ func c13Overrides(r *Run, fn *ssa.Function, header *ssa.BasicBlock, byCode map[i
 			r.Funcs[FuncName(g)] = true
 			addSite(site{g, hc})
 			touched := c13StoredThrough(r, arg, reach)
+			// the emptiness test in the helper's frame: on the header read inside the helper, or
+			// on the parameter that receives the header value at the call
+			raG, hasRA := ra, false
+			for k, a := range CallArgs(hc) {
+				if glob(ra.OrdA, r.D.D(a)) {
+					raG = ordAtomR(fmt.Sprintf("p%d", k), `""`)
+				}
+			}
+			if _, e := r.BindSigma(g, AtomVal{raG, "="}); e == nil {
+				hasRA = true
+			} else {
+				// no emptiness test: the helper treats "" like any other value, and both parsers
+				// reject it, so "no header" is the case "neither form parses"
+				r.Assume(`strconv.Atoi("") and time.Parse(layout, "") return errors`)
+			}
 			for _, ov := range ovs {
 				key := fmt.Sprintf("retry:override[%d,%s]", code, ov.name)
-				s2, err := r.BindSigma(g, ov.avs...)
+				var avs []AtomVal
+				for _, av := range ov.avs {
+					switch {
+					case av.Atom.OrdA != ra.OrdA:
+						avs = append(avs, av)
+					case hasRA:
+						avs = append(avs, AtomVal{raG, av.Val})
+					}
+				}
+				if !hasRA && ov.name == "no-header" {
+					avs = []AtomVal{{atoi, "non"}, {parse, "non"}}
+				}
+				s2, err := r.BindSigma(g, avs...)
 				if err != nil {
 					r.Fail(key, r.FnPos(g), "undecided: "+err.Error())
 					continue
@@ -569,7 +632,7 @@ func c13Overrides(r *Run, fn *ssa.Function, header *ssa.BasicBlock, byCode map[i
 		sites = append(sites, site{fn, nil}) // report the missing parsers against the loop
 	}
 	for _, st := range sites {
-		header := `(http.Header).Get(*PostAndParse(*)#0.Header, "Retry-After")`
+		header := `(http.Header).Get(*` + rsp + `.Header, "Retry-After")`
 		if c := r.OneCall(st.fn, "retry:Atoi", "strconv.Atoi"); c != nil {
 			c13ExpectArgVia(r, c, "retry:Atoi.input", 0, header, st.via)
 		}
@@ -587,6 +650,16 @@ func c13ExpectArgVia(r *Run, c ssa.CallInstruction, key string, i int, valGlob s
 		return r.ExpectArg(c, key, i, valGlob)
 	}
 	got := r.D.D(CallArgs(c)[i])
+	if p, isParam := CallArgs(c)[i].(*ssa.Parameter); isParam {
+		// the helper hands its own parameter on: what arrives is the argument of the call, whose
+		// term may be too deep to be substituted textually
+		for k, q := range p.Parent().Params {
+			if q == p && k < len(CallArgs(via)) {
+				t := r.D.D(CallArgs(via)[k])
+				return r.Check(key, anyGlob(valGlob, t), r.Where(c), fmt.Sprintf("arg %d of %s = %s, at the call of %s: %s (expected %s)", i, CalleeOf(c), got, CalleeOf(via), t, valGlob))
+			}
+		}
+	}
 	t, ok := r.SubstParams(got, via)
 	if !ok {
 		return r.Check(key, false, r.Where(c), fmt.Sprintf("undecided: arg %d of %s = %s cannot be expressed in the terms of the caller of %s", i, CalleeOf(c), got, CalleeOf(via)))
@@ -651,7 +724,13 @@ func c13Override(r *Run, v ssa.Value, reach *Reach, want string) (bool, string) 
 			ok = false
 			continue
 		}
-		sts := WholeStores(a)
+		// the stores that may execute under the walk (one local may be filled on several branches)
+		var sts []*ssa.Store
+		for _, st := range WholeStores(a) {
+			if reach == nil || reach.Has(st) {
+				sts = append(sts, st)
+			}
+		}
 		if len(sts) == 0 {
 			got = append(got, "&(unset)")
 			ok = false
@@ -848,7 +927,7 @@ func c13WaitRule(r *Run, w *c13WaitSite) {
 	r.Funcs[FuncName(fn)] = true
 	var header *ssa.BasicBlock // written-out form: the attempt that follows the wait
 	if w.inline() {
-		if cs := CallsTo(fn, c13Post); len(cs) == 1 {
+		if cs := c13Attempts(fn); len(cs) == 1 && cs[0].Parent() == fn {
 			header = cs[0].Block()
 		} else {
 			r.Fail("wait:loop", r.FnPos(fn), "undecided: the attempt of the retry loop is not unique")
@@ -1070,14 +1149,7 @@ func c13PostRule(r *Run, fn *ssa.Function) {
 	}
 	r.MustGuard(fn, "post:method-still-POST", `ord("POST", ctxhttp.Do(*)#0.Request.Method)`, "<,>", succ, "nil-error return")
 	r.ErrorsGate(fn, "post:errors", "*", 6)
-	do := r.OneCall(fn, "post:do", "ctxhttp.Do")
-	if do != nil {
-		r.ExpectArg(do, "post:do.ctx", 0, "p1")
-		r.ExpectArg(do, "post:do.client", 1, "p0.httpClient")
-	}
-	if c := r.OneCall(fn, "post:request", "http.NewRequest"); c != nil {
-		r.ExpectArg(c, "post:request.method", 0, `"POST"`)
-	}
+	c13TransportArgs(r, fn, "post")
 	for _, ret := range succ {
 		v := RetVals(ret.(*ssa.Return))
 		r.Check("post:success.response", glob("ctxhttp.Do(p1, p0.httpClient, *)#0", r.D.D(v[0])), r.Where(ret), "returns the response of this request: "+r.D.D(v[0]))
@@ -1108,9 +1180,93 @@ func c13PostRule(r *Run, fn *ssa.Function) {
 	// the body is parsed exactly when the status is 200
 	if um := r.OneCall(fn, "post:unmarshal", "json.Unmarshal"); um != nil {
 		r.MustGuard(fn, "post:parse-only-200", "ord(200, ctxhttp.Do(*)#0.StatusCode)", "<,>", []ssa.Instruction{um}, "json.Unmarshal of the body")
-		r.ExpectArg(um, "post:unmarshal.body", 0, "*io.ReadAll(*)#0*")
-		r.ExpectArg(um, "post:unmarshal.target", 1, "&(p4) || p4")
+		c13DecodeArgs(r, um, "post")
 	}
+}
+
+// c13TransportArgs: the request goes out with the caller's context through the client's
+// http.Client, and it is a POST.
+func c13TransportArgs(r *Run, fn *ssa.Function, pfx string) {
+	if do := r.OneCall(fn, pfx+":do", "ctxhttp.Do"); do != nil {
+		r.ExpectArg(do, pfx+":do.ctx", 0, "p1")
+		r.ExpectArg(do, pfx+":do.client", 1, "p0.httpClient")
+	}
+	if c := r.OneCall(fn, pfx+":request", "http.NewRequest"); c != nil {
+		r.ExpectArg(c, pfx+":request.method", 0, `"POST"`)
+	}
+}
+
+// c13DecodeArgs: what is decoded is the body read from the response, and it is decoded into the
+// caller's rsp (parameter 4): json.Unmarshal is handed rsp itself, the address of the parameter, or
+// the address of a local interface variable that holds nothing but rsp (a copy of the parameter —
+// Unmarshal decodes into the pointer held by the interface either way).
+func c13DecodeArgs(r *Run, um ssa.CallInstruction, pfx string) {
+	r.ExpectArg(um, pfx+":unmarshal.body", 0, "*io.ReadAll(*)#0*")
+	ok, got := c13ParamOrCopy(r, um, 1, "p4")
+	r.Check(pfx+":unmarshal.target", ok, r.Where(um), fmt.Sprintf("arg 1 of %s = %s (expected &(p4), p4 or the address of a local copy of p4)", CalleeOf(um), got))
+}
+
+// c13ParamOrCopy: argument i of the call is the parameter (p4), its address (&(p4)), or the address
+// of a local variable that holds nothing but the parameter and is used by this call alone: the
+// only stores into it store the parameter and execute before the call, it is read but never written
+// through elsewhere, and its address goes nowhere but into the call.
+func c13ParamOrCopy(r *Run, call ssa.CallInstruction, i int, param string) (bool, string) {
+	target := CallArgs(call)[i]
+	got := r.D.D(target)
+	if got == param || got == "&("+param+")" {
+		return true, got
+	}
+	tv := target
+	if mi, isMI := tv.(*ssa.MakeInterface); isMI {
+		tv = mi.X
+	}
+	a, isAlloc := tv.(*ssa.Alloc)
+	if !isAlloc || a.Referrers() == nil {
+		return false, got
+	}
+	sts := WholeStores(a)
+	ok := len(sts) > 0
+	for _, st := range sts {
+		// each store puts the parameter in, and the local is filled before the call runs
+		before := st.Block().Dominates(call.Block())
+		if st.Block() == call.Block() {
+			before = instrIndexOf(st) < instrIndexOf(call)
+		}
+		ok = ok && r.D.D(st.Val) == param && before
+	}
+	onlyThisCall := func(v ssa.Value) bool {
+		if v.Referrers() == nil {
+			return true
+		}
+		for _, ref := range *v.Referrers() {
+			if _, dbg := ref.(*ssa.DebugRef); dbg {
+				continue
+			}
+			if ci, isCall := ref.(ssa.CallInstruction); !isCall || ci != call {
+				return false
+			}
+		}
+		return true
+	}
+	for _, ref := range *a.Referrers() {
+		switch u := ref.(type) {
+		case *ssa.DebugRef:
+		case *ssa.UnOp:
+			ok = ok && u.Op == token.MUL // a read of the copy
+		case *ssa.Store:
+			ok = ok && u.Addr == ssa.Value(a) && u.Val != ssa.Value(a)
+		case ssa.CallInstruction:
+			ok = ok && u == call
+		case *ssa.MakeInterface:
+			ok = ok && onlyThisCall(u) // boxed as the interface{} argument of the call
+		default:
+			ok = false
+		}
+	}
+	if ok {
+		got += " (a local that holds " + param + " only)"
+	}
+	return ok, got
 }
 
 // ---- R7: the log client goes through the retry loop -----------------------------------
